@@ -140,6 +140,9 @@ def handle_trace_data_thread_terminate_pid(parser, events):
 
 
 def handle_trace_string_global(parser, events):
+    if not events[0].func_qualifier & DgbFuncQual.DBG_FUNC_START.value:
+        # Continuation chunk of a long string, reported as part of its START..END window.
+        return None
     debugid = 0
     str_id = 0
     vstr = b''
